@@ -2,6 +2,7 @@
 
 R19.1 attribute protocol: everything a condition reads from the model exists on PrecipitateModel / PrecipitationData
 R19.2 latch: a satisfied condition is never re-evaluated or un-satisfied; the crossing time is written with the transition only
+R19.8 no path replaces the interpolated time under a tolerance (isclose) test of the two values
 R19.7 the interpolated crossing time is stored only when the condition was not met at the previous step (otherwise the time of that step)
 R19.3 fold: every registered condition is tested on every step; or-/and-accumulators; an empty and-set never stops the run
 R19.4 each condition reads the history of its name, with the selection (phase / element) it was given; inequality table
@@ -197,6 +198,24 @@ def r192(repo, ctx, index):
               f'on all {n_interp} path(s) that store the interpolated time the condition was tested at the previous step and was not met there: the threshold lies between the two values',
               'the interpolated time is stored without testing that the condition was not yet met at the previous step: when it already was (true at the initial state, registered mid-run) '
               'the formula extrapolates and the reported time falls outside the step', construct='testCondition: interpolation guarded by the previous step')
+
+
+    # R19.8 (converse): a newly met condition whose previous value was on the other side of the threshold reports the interpolated
+    # time; a path that stores another time under an *inexact* flatness test (np.isclose & co: absolute tolerances far above
+    # the magnitude of radii or compositions) replaces the interpolation on ordinary steps
+    inexact = []
+    for o in outs:
+        v = o.fields.get('_satisfiedTime')
+        if '_satisfiedTime' not in o.written or (isinstance(v, tuple) and v and v[0] == 'op'):
+            continue
+        for tv, text in o.conds:
+            if tv == 'T' and any(k in text for k in ('np.isclose(', 'math.isclose(', 'np.allclose(', 'isclose(')):
+                inexact.append(text)
+    ctx.check(not inexact, 'R19.8', SC, f'{BASECLS}.testCondition', st[0] if st else f,
+              'no path replaces the interpolated crossing time under a tolerance test of the two values',
+              f'under the tolerance test {inexact[0][:80] if inexact else ""} the end (or start) of the step is reported instead of the interpolated crossing time: with the default absolute '
+              'tolerance this holds on every ordinary step for quantities such as radii (1e-9 m), so the reported time is no longer the linear interpolation',
+              construct='testCondition: interpolation replaced under a tolerance test')
 
 
 def _registry_mentions(node):
